@@ -184,7 +184,9 @@ impl Screen {
             return;
         }
         let r = self.cursor.row;
-        let start = self.cursor.col.min(self.w);
+        // (with a wrap pending after a character in the last column the cursor is still ON the
+        // last column for everything but the next printable character)
+        let start = self.cursor.col.min(self.w.saturating_sub(1));
         let end = start.saturating_add(n.max(1)).min(self.w);
         let face = Face::default().with_bg(self.face.bg);
         for c in start..end {
